@@ -1,0 +1,50 @@
+//go:build verif
+
+package lintcmd
+
+// Contracts for the verification machinery in /verif (see /verif/DESIGN.md).
+// This file contains only comments; it is compiled to nothing.
+
+//@ prop C11
+
+//@ extern strings.IndexFunc(s string, f func(rune) bool) int
+//@   pure
+//@   ensures result >= -1 && result < len(s)
+//@ extern strings.HasSuffix(s string, suffix string) bool
+//@   pure
+//@   ensures result == str_suffixof(suffix, s)
+//@ extern strings.HasPrefix(s string, prefix string) bool
+//@   pure
+//@   ensures result == str_prefixof(prefix, s)
+
+// ---- check selection, as documented (left to right, last match wins) ----
+// an entry is negated when it starts with '-' (and is longer than one character)
+//@ ghost selNeg(c caseFoldedString) bool = len(c.s) > 1 && c.s[0] == '-'
+//@ ghost selBody(c caseFoldedString) string = selNeg(c) ? c.s[1:] : c.s
+//@ ghost isAll(p string) bool = p == "*" || p == "all"
+//@ ghost isGlob(p string) bool = !isAll(p) && str_suffixof("*", p)
+//@ ghost firstDigit(s string) int = strings.IndexFunc(s, unicode.IsNumber)
+// category of an analyzer name: everything before its first digit
+//@ ghost category(a string) string = firstDigit(a) == -1 ? a : a[0:firstDigit(a)]
+// a glob P* without a digit in P is a category glob: it matches the names whose category is
+// exactly P (S* matches S1000 but not SA1000); with a digit it is a prefix glob
+//@ ghost globHits(p string, a string) bool = firstDigit(p[0:len(p)-1]) == -1 ? p[0:len(p)-1] == category(a) : str_prefixof(p[0:len(p)-1], a)
+// memb(all, k, m): k occurs among all[0..m)
+//@ ghost memb(all []caseFoldedString, k caseFoldedString, m int) bool = m > 0 && (all[m-1] == k || memb(all, k, m-1))
+// does selection entry c say something about name k?
+//@ ghost hits(all []caseFoldedString, c caseFoldedString, k caseFoldedString) bool = isAll(selBody(c)) ? memb(all, k, len(all)) : (isGlob(selBody(c)) ? (memb(all, k, len(all)) && globHits(selBody(c), k.s)) : selBody(c) == k.s)
+// verdict for k after the first n entries: 0 = not mentioned, 1 = enabled, 2 = disabled
+//@ ghost verdict(all []caseFoldedString, sel []caseFoldedString, k caseFoldedString, n int) int = n <= 0 ? 0 : (hits(all, sel[n-1], k) ? (selNeg(sel[n-1]) ? 2 : 1) : verdict(all, sel, k, n-1))
+
+//@ func filterAnalyzerNames
+//@   ensures  [dom] forall k caseFoldedString :: {k in result} (k in result) == (verdict(allAnalyzers, selection, k, len(selection)) != 0)
+//@   ensures  [val] forall k caseFoldedString :: {result[k]} (k in result) ==> result[k] == (verdict(allAnalyzers, selection, k, len(selection)) == 1)
+//@   loop 1   index n
+//@   loop 1   invariant [dom] forall k caseFoldedString :: {k in allowedChecks} (k in allowedChecks) == (verdict(allAnalyzers, selection, k, n) != 0)
+//@   loop 1   invariant [val] forall k caseFoldedString :: {allowedChecks[k]} (k in allowedChecks) ==> allowedChecks[k] == (verdict(allAnalyzers, selection, k, n) == 1)
+//@   loop 2   index m
+//@   loop 2   invariant [dom] forall k caseFoldedString :: {k in allowedChecks} (k in allowedChecks) == (memb(allAnalyzers, k, m) || (k in loopentry(allowedChecks)))
+//@   loop 2   invariant [val] forall k caseFoldedString :: {allowedChecks[k]} (k in allowedChecks) ==> allowedChecks[k] == (memb(allAnalyzers, k, m) ? b : loopentry(allowedChecks)[k])
+//@   loop 3   index m
+//@   loop 3   invariant [dom] forall k caseFoldedString :: {k in allowedChecks} (k in allowedChecks) == ((memb(allAnalyzers, k, m) && globHits(check.s, k.s)) || (k in loopentry(allowedChecks)))
+//@   loop 3   invariant [val] forall k caseFoldedString :: {allowedChecks[k]} (k in allowedChecks) ==> allowedChecks[k] == ((memb(allAnalyzers, k, m) && globHits(check.s, k.s)) ? b : loopentry(allowedChecks)[k])
